@@ -349,7 +349,12 @@ def linspace(
 
     chunks = normalize_chunks(chunks, (num,), dtype=dtype)
 
-    range_ = stop - start
+    if isinstance(start, Array) or isinstance(stop, Array):
+        range_ = stop - start
+    else:
+        # like NumPy: the endpoints are converted to floating point before subtracting
+        dt = np.result_type(start, stop, float(num))
+        range_ = np.subtract(stop, start, dtype=dt)
 
     div = (num - 1) if endpoint else num
     if div == 0:
